@@ -224,6 +224,9 @@ class Options:
     record_unbound: bool = True
     havoc_on_call: bool = False
     root_module: str = ""
+    # (modules, k, scope): integer constants > scope written in these modules (literals and module-level names) evaluate to k.  Used by
+    # small-scope rules: a size threshold above the explored scope is lowered into it, so that the beyond-threshold behaviour is explored too.
+    scale_ints: Any = None
 
 
 from .evalx import EvalMixin  # noqa: E402
@@ -283,7 +286,7 @@ class Interp:
         self.opts = Options(**kw)
 
     def explore(self, qual: str | FuncInfo, env: dict | None = None, args: dict | None = None,
-                closure_frame: Frame | None = None, closure_locals: dict | None = None) -> list[Path]:
+                closure_frame: Frame | None = None, closure_locals: dict | None = None, defaults: bool = False) -> list[Path]:
         """All paths of the function.  `env` presets heap access paths (e.g.
         'state.outputs': {...}); `args` binds parameters to values (default: Sym(param))."""
         fi = qual if isinstance(qual, FuncInfo) else self.repo.func(qual)
@@ -308,6 +311,9 @@ class Interp:
                     fr.locals[p] = Cell(args_c[p], Sym(p))
                 elif p in run.heap:
                     fr.locals[p] = Cell(run.heap[p], Sym(p))
+                elif defaults and (dflt := _default_expr(fi, p)) is not None:
+                    # the parameter is left out by the caller being modelled: it takes its declared default
+                    fr.locals[p] = Cell(run.eval_default(dflt, fi, cf), Sym(p))
                 else:
                     fr.locals[p] = Cell(Sym(p), Sym(p))
             if fi.cls is not None and fi.params and fi.params[0] in ("self", "cls"):
@@ -337,6 +343,19 @@ class Interp:
             if len(paths) > self.opts.max_paths:
                 raise AnalysisError(f"path bound {self.opts.max_paths} exceeded in {fi.qual}")
         return paths
+
+
+def _default_expr(fi, p):
+    a = fi.node.args
+    pos = a.posonlyargs + a.args
+    for i, x in enumerate(pos):
+        di = i - (len(pos) - len(a.defaults))
+        if x.arg == p and di >= 0:
+            return a.defaults[di]
+    for x, d in zip(a.kwonlyargs, a.kw_defaults):
+        if x.arg == p and d is not None:
+            return d
+    return None
 
 
 def module_globals(repo: Repo, modname: str, opts: dict | None = None, effects: list | None = None) -> dict:
